@@ -157,7 +157,9 @@ def build_one(t):
         deps = {p: sha(p) for p in _parse_deps(depfile)}
         for s in t.sources:
             deps[os.path.realpath(s)] = sha(s)
-        json.dump({"cmd": t.cmd_hash(), "deps": deps}, open(t.meta, "w"))
+        with open(t.meta + ".tmp", "w") as mf:
+            json.dump({"cmd": t.cmd_hash(), "deps": deps}, mf)
+        os.replace(t.meta + ".tmp", t.meta)
         t.built = True
         return t
     finally:
